@@ -88,7 +88,7 @@ def _run_block(args):
     try:
         bind_repo()
         prop = load_prop(pid)
-        for case in prop.expand(block, tier):
+        for cidx, case in enumerate(prop.expand(block, tier)):
             r = prop.check_one(case)
             out["n"] += 1
             out["tr"] += int(r.get("tr", 1))
@@ -107,7 +107,7 @@ def _run_block(args):
                 out["viol_count"][sig] += 1
                 lst = out["viol"].setdefault(sig, [])
                 if len(lst) < MAX_VIOL_PER_SIG_PER_BLOCK:
-                    lst.append({"case": case, "detail": detail})
+                    lst.append({"case": case, "detail": detail, "history": {"block": block, "index": cidx, "tier": tier}})
             if out["sample"] is None:
                 out["sample"] = {"case": case, "outcome": r["outcome"]}
     except Exception:
@@ -141,7 +141,7 @@ def write_replay(pid, sig, item):
     path = os.path.join(VERIF, "replays", f"{pid}-{h}.json")
     with open(path, "w") as f:
         json.dump(
-            {"property": pid, "signature": sig, "detail": item["detail"], "case": item["case"]},
+            {"property": pid, "signature": sig, "detail": item["detail"], "case": item["case"], "history": item.get("history")},
             f,
             indent=1,
             ensure_ascii=False,
@@ -180,11 +180,24 @@ def replay(pid, path, sig_only=False):
         rec = json.load(f)
     r = prop.check_one(rec["case"])
     sigs = [s for s, _ in r.get("viol", ())]
+    hist_note = ""
+    if not sigs and rec.get("history") and os.environ.get("VERIF_NO_HISTORY") != "1":
+        # not reproducible on its own: replay the cases that preceded it in its block, in this fresh process
+        h = rec["history"]
+        blk = h["block"]
+        blk = tuple(blk) if isinstance(blk, list) else blk
+        for i, case in enumerate(prop.expand(blk, h["tier"])):
+            r = prop.check_one(case)
+            if i >= h["index"]:
+                break
+        sigs = [s for s, _ in r.get("viol", ())]
+        if sigs:
+            hist_note = f" (only after the {h['index']} preceding conversions of its block in the same process: state is carried between conversions)"
     if sig_only:
         for s in sigs:
             print(s)
         return 1 if sigs else 0
-    print(f"replay {path}: outcome={r['outcome']}")
+    print(f"replay {path}: outcome={r['outcome']}{hist_note}")
     for s, d in r.get("viol", ()):
         print(f"  violation signature={s}\n  detail={d}")
     if sigs:
